@@ -62,7 +62,8 @@ def render_tree(tree, in_options):
              "def F_%d(): return G_%d" % (i, i),
              "class K_%d: pass" % i,
              "_others = %r" % [x for x in allnames if not x.endswith('_%d' % i)],
-             "_rec = {'id': %d, 'leaks': [], 'got': [], 'export_error': None}" % i,
+             "_rec = {'id': %d, 'leaks': [], 'got': [], 'gotkeys': [], 'kid_common': [], 'export_error': None}" % i,
+             "_kids = []",
              "def _probe(when):",
              "    for _n in _others:",
              "        try:",
@@ -80,12 +81,25 @@ def render_tree(tree, in_options):
             else:
                 ref = 'm%d' % j
             L.append("_e = submodule(%r)" % ref)
-            L.append("_rec['got'].append([%d, sorted(_e.items())])" % k)
+            L.append("_rec['got'].append([%d, sorted((a, b) for a, b in _e.items() if a in ('val', 'who'))])" % k)
+            L.append("_rec['gotkeys'].append(sorted(_e))")
+            L.append("_kids.append((%d, _e))" % k)
             L.append("_probe('after-%d')" % k)
         # a sibling script included a second time (export-only, declares no output)
         if n['kids']:
             L.append("_e = submodule('shared')")
             L.append("_rec['got'].append(['shared', sorted(_e.items())])")
+        # one script included by EVERY node (so it is executed several times in one run): each
+        # inclusion must hand out its own exports -- the caller annotates what it received
+        depth = len(n['dir'].split('/')) if n['dir'] else 0
+        L.append("_c = submodule(%r)" % ('../' * depth + 'common'))
+        L.append("_rec['common'] = {'keys': sorted(_c), 'fresh': list(_c['fresh']), 'n': _c['n']}")
+        L.append("_c['fresh'].append(%d)" % i)
+        L.append("_c['touched_by_%d'] = True" % i)
+        # what the children re-exported is read only now, after later inclusions of `common`
+        L.append("for _k, _ke in _kids:")
+        L.append("    _rec['kid_common'].append([_k, _ke['cn'], _ke['cdict']['n'], "
+                 "sorted(x for x in _ke['cdict'] if x.startswith('touched_by_')), list(_ke['cdict']['fresh'])])")
         if not in_options:
             L.append("_out = copy_file('out_%d.txt', 'in.txt')" % i)
             L.append("_g = build_step('gen_%d.txt', cmd=['gen', build_step.output, '--', "
@@ -97,7 +111,7 @@ def render_tree(tree, in_options):
             L += ["try:", "    export(x=1)", "except ValueError as e:",
                   "    _rec['export_error'] = 'ValueError'"]
         else:
-            L.append("export(who=%d, val=G_%d)" % (i, i))
+            L.append("export(who=%d, val=G_%d, cn=_c['n'], cdict=_c)" % (i, i))
         L.append("open(os.path.join(os.environ['VERIF_OUT'], '%s_%d.json'), 'w').write(json.dumps(_rec))"
                  % ('opt' if in_options else 'bld', i))
         name = 'options.bfg' if in_options else 'build.bfg'
@@ -109,6 +123,9 @@ def render_tree(tree, in_options):
                 "S_%d = 1\nexport(shared_from=%r%s)\n" % (
                     i, sd, '' if in_options else ", f=source_file('in.txt').path.suffix"))
             files[os.path.join(sd, 'in.txt')] = 'shared\n'
+    files[os.path.join('common', name)] = (
+        "import os\n_d = os.path.join(os.environ['VERIF_OUT'], 'common_runs')\nos.makedirs(_d, exist_ok=True)\n"
+        "_n = len(os.listdir(_d))\nopen(os.path.join(_d, str(_n)), 'w').close()\nexport(n=_n, fresh=[])\n")
     return nodes, files
 
 
@@ -130,11 +147,17 @@ def _tree_shard(arg):
             r = pr.configure()
             n += 1
             desc = 'tree=%r %s %s' % (tree, 'options.bfg' if in_options else 'build.bfg', backend)
+            runs = os.path.join(outd, 'common_runs')
+            if r.rc == 0 and len(os.listdir(runs) if os.path.isdir(runs) else []) != len(nodes):
+                viol.append(('script-not-run', desc, 'the common script ran %d times for %d inclusions'
+                             % (len(os.listdir(runs)) if os.path.isdir(runs) else 0, len(nodes))))
             if r.rc != 0:
                 viol.append(('configure-fails', desc, r.err[-300:]))
                 continue
             recs = {}
             for f in os.listdir(outd):
+                if not f.endswith('.json'):
+                    continue
                 d = json.load(open(os.path.join(outd, f)))
                 recs[d['id']] = d
             for nd in nodes:
@@ -149,6 +172,20 @@ def _tree_shard(arg):
                 if got != want:
                     viol.append(('exports', desc, 'script %d received %r, expected %r'
                                  % (nd['id'], got, want)))
+                if d['gotkeys'] != [['cdict', 'cn', 'val', 'who']] * len(nd['kids']):
+                    viol.append(('exports', desc, 'script %d received the keys %r' % (nd['id'], d['gotkeys'])))
+                c = d['common']
+                if c['keys'] != ['fresh', 'n'] or c['fresh'] != []:
+                    viol.append(('exports-shared-between-inclusions', desc,
+                                 'script %d includes a script that others include too and receives keys %r, '
+                                 'fresh=%r (expected exactly its exports: fresh=[] and n)'
+                                 % (nd['id'], c['keys'], c['fresh'])))
+                for k, cn, cdn, touched, fresh in d['kid_common']:
+                    if cn != cdn or touched != ['touched_by_%d' % k] or fresh != [k]:
+                        viol.append(('exports-shared-between-inclusions', desc,
+                                     'script %d: what child %d re-exported changed after a later inclusion of the '
+                                     'same script: n %r -> %r, annotations %r, list %r'
+                                     % (nd['id'], k, cn, cdn, touched, fresh)))
                 sh = [g for g in d['got'] if g[0] == 'shared']
                 if nd['kids']:
                     sd = os.path.join(nd['dir'], 'shared')
